@@ -1,6 +1,7 @@
 import NunavutVerif.Lemmas.GenCSer
 import NunavutVerif.Lemmas.GenCDe
 import NunavutVerif.Lemmas.DsdlRepr
+import NunavutVerif.Lemmas.DsdlDecode
 /-!
 # C01 / C02 / C04 — the generated C codecs refine the DSDL specification
 
@@ -8,8 +9,9 @@ import NunavutVerif.Lemmas.DsdlRepr
 macro with each fast path, nested calls on sub-buffers, delimiter header reserve / back-patch, union tag dispatch,
 return codes), on top of the C14 models of the support primitives.  The theorems below say that this
 implementation-shaped model **refines** the specification `Model/Dsdl.lean` — for *every* type, object, buffer,
-capacity, both `target_endianness` renderings and every sound alignment oracle; by structural induction over the type,
-from the C14 contracts of the primitives.
+capacity, both `target_endianness` renderings, `enable_serialization_asserts` on and off (`Opts.asserts`: every
+`NUNAVUT_ASSERT` of the templates is a branch of the model that aborts) and every sound alignment oracle; by structural
+induction over the type, from the C14 contracts of the primitives.
 
 Hypotheses, all of them facts PyDSDL / the C type system guarantee: `wf`/`wfC` (widths, capacities, `void1…64`),
 `isComposite (topInner t)` (generated functions exist for composites), `hasTy` (the object has the shape of the type),
@@ -22,9 +24,9 @@ open NunavutVerif.Dsdl NunavutVerif.Bits
 
 /-- The oracle of the driver (the exact residue analysis; by the structural tie: PyDSDL's `is_aligned_at_byte`)
 is sound. -/
-theorem C01_genC_exact_oracle_sound (little : Bool) (fill : Nat) :
-    Opts.Sound { little := little, orc := exactOrc, fill := fill } :=
-  exactOrc_sound little fill
+theorem C01_genC_exact_oracle_sound (little : Bool) (fill : Nat) (asserts : Bool) :
+    Opts.Sound { little := little, orc := exactOrc, fill := fill, asserts := asserts } :=
+  exactOrc_sound little fill asserts
 
 /-- (b) `8·capacity < maxBits` ⇒ `-NUNAVUT_ERROR_SERIALIZATION_BUFFER_TOO_SMALL`, returned before the object is
 looked at and before any buffer access (the model's first branch; no primitive is called). -/
@@ -156,6 +158,56 @@ theorem C02_genC_consumed_le_supplied (o : Opts) (hs : o.Sound) (t : Ty) (hw : w
     cases h
     omega
 
+/-- Implicit zero extension on the implementation model: the generated deserializer returns the same object for a
+byte string and for the same string followed by any number of zero bytes (data that ends early is read as zeros). -/
+theorem C02_genC_zero_extension (o : Opts) (hs : o.Sound) (t : Ty) (hw : wf t = true) (hwC : wfC t = true)
+    (hc : isComposite (topInner t) = true) (bytes : Buf) (hwf : WF bytes) (k : Nat) (v : Val) (n : Nat)
+    (h : deserializeC o t bytes bytes.length = .ok (v, n)) :
+    ∃ n', deserializeC o t (bytes ++ List.replicate k 0) (bytes.length + k) = .ok (v, n') := by
+  have hwf' : WF (bytes ++ List.replicate k 0) := WF_append hwf (WF_replicate' k 0 (by decide))
+  have h1 := deserializeC_refines o hs t hw hwC hc bytes bytes.length hwf (Nat.le_refl _)
+  have h2 := deserializeC_refines o hs t hw hwC hc (bytes ++ List.replicate k 0) (bytes.length + k) hwf' (by simp)
+  rw [List.take_length] at h1
+  rw [show bytes.length + k = (bytes ++ List.replicate k 0).length by simp, List.take_length] at h2
+  rw [show bytes.length + k = (bytes ++ List.replicate k 0).length by simp, h2]
+  rw [h1] at h
+  unfold deBytes deTop at h ⊢
+  rw [unpackBytes_append, unpackBytes_zeros]
+  cases hsp : deBits (topInner t) (unpackBytes bytes) with
+  | error e => rw [hsp] at h; cases h
+  | ok r =>
+    obtain ⟨v', m⟩ := r
+    rw [hsp] at h
+    simp only [Except.mapError] at h
+    cases h
+    rw [zxOK (topInner t) _ v m (8 * k) hsp]
+    exact ⟨_, rfl⟩
+
+/-- The reported size never exceeds the capacity the caller declared (buffer sufficiency on the implementation). -/
+theorem C01_genC_reported_size_le_capacity (o : Opts) (hs : o.Sound) (t : Ty) (hw : wf t = true)
+    (hwC : wfC t = true) (hc : isComposite (topInner t) = true) (v : Val) (ht : hasTy t v = true)
+    (hst : storageOK t v = true) (buf : Buf) (cap : Nat) (hwf : WF buf) (hcap : cap ≤ buf.length) (buf' : Buf)
+    (n : Nat) (h : serializeC o t v buf cap = .ok (buf', n)) : n ≤ cap := by
+  have hroom : maxBits (topInner t) ≤ 8 * cap := by
+    apply Nat.le_of_not_lt
+    intro hlt
+    rw [serializeC_tooSmall o hs t hc v ht buf cap hlt] at h
+    cases h
+  have := serializeC_refines o hs t hw hwC hc v ht hst buf cap hwf hcap hroom
+  cases hsb : serBytes t v with
+  | error e => rw [hsb] at this; rw [this] at h; cases h
+  | ok bytes =>
+    rw [hsb] at this
+    obtain ⟨b2, h1, _⟩ := this
+    rw [h1] at h
+    cases h
+    simp only [serBytes, serTop] at hsb
+    rw [map_eq_ok] at hsb
+    obtain ⟨bits, hb, rfl⟩ := hsb
+    have := (lenOK (topInner t) (wf_topInner hw) v bits hb).2.1
+    rw [packBytes_length]
+    omega
+
 /-- Every exit of the generated deserializer is success or one of the three representation errors; the error is
 the specification's. -/
 theorem C02_genC_deserialize_exits (o : Opts) (hs : o.Sound) (t : Ty) (hw : wf t = true) (hwC : wfC t = true)
@@ -182,6 +234,32 @@ theorem C04_genC_deserialize_memory_safe (o : Opts) (hs : o.Sound) (t : Ty) (hw 
   cases deBytes t (buf.take cap) with
   | ok r => intro h; cases h
   | error e' => cases e' <;> intro h <;> cases h
+
+/-- With `enable_serialization_asserts` no `NUNAVUT_ASSERT` the templates emit can fail (C04, totality under that
+option): the alignment claims of the generator (`offset.is_aligned_at_byte()` turned into run-time assertions), the
+room assertions `offset_bits + max <= capacity_bytes * 8` at every site, the size bounds after arrays and nested
+calls, the padding and final size assertions — on any object, buffer and capacity. -/
+theorem C04_genC_no_assertion_fails (o : Opts) (hs : o.Sound) (t : Ty) (hw : wf t = true) (hwC : wfC t = true)
+    (hc : isComposite (topInner t) = true) (v : Val) (ht : hasTy t v = true) (hst : storageOK t v = true)
+    (buf : Buf) (cap : Nat) (hwf : WF buf) (hcap : cap ≤ buf.length) :
+    serializeC o t v buf cap ≠ .error .assert ∧ deserializeC o t buf cap ≠ .error .assert := by
+  constructor
+  · by_cases h : 8 * cap < maxBits (topInner t)
+    · rw [serializeC_tooSmall o hs t hc v ht buf cap h]
+      intro hh; cases hh
+    · have := serializeC_refines o hs t hw hwC hc v ht hst buf cap hwf hcap (by omega)
+      cases hsb : serBytes t v with
+      | error e' =>
+        rw [hsb] at this; rw [this]
+        cases e' <;> intro hh <;> cases hh
+      | ok bytes =>
+        rw [hsb] at this
+        obtain ⟨buf', h1, _⟩ := this
+        rw [h1]; intro hh; cases hh
+  · rw [deserializeC_refines o hs t hw hwC hc buf cap hwf hcap]
+    cases deBytes t (buf.take cap) with
+    | ok r => intro h; cases h
+    | error e' => cases e' <;> intro h <;> cases h
 
 /-- Prior-state independence (C04): what the destination arrays held before the call (`fill`), the bytes of the
 buffer beyond the supplied size, the endianness rendering and the oracle have no influence on the result. -/
@@ -235,7 +313,7 @@ def exVal : Val :=
     .struct [.int 9, .arr [.int (-5), .int 3000]]]
 
 def optAny : Opts := { little := false, orc := exactOrc }
-def optLittle : Opts := { little := true, orc := exactOrc }
+def optLittle : Opts := { little := true, orc := exactOrc, asserts := true }
 
 example : wf exTy = true ∧ wfC exTy = true ∧ hasTy exTy exVal = true ∧ storageOK exTy exVal = true := by decide
 
@@ -264,5 +342,19 @@ example : deserializeC optLittle exTy [31, 254] 2
 example : deserializeC optAny exTy [31, 254, 255, 5, 9, 0, 0, 0, 23] 9 = .error eBadDelimiterHeader := by decide
 
 example : deserializeC optAny exTy [31, 254, 255, 5, 2, 0, 0, 0, 23, 3] 10 = .error eBadArrayLength := by decide
+
+/-! The soundness hypothesis on the oracle is necessary, and the assertion branches are live: an oracle that claims
+alignment everywhere makes the generated code of `struct { uint3 a; uint8 b }` store `b` with a whole-byte write at
+bit 3 — wrong bytes without assertions, an aborting `NUNAVUT_ASSERT(offset_bits % 8U == 0U)` with them. -/
+
+def liar (a : Bool) : Opts := { little := false, orc := fun _ => true, asserts := a }
+def exTy2 : Ty := .struct [.uint 3 .sat, .uint 8 .sat]
+def exVal2 : Val := .struct [.int 5, .int 255]
+
+example : serBytes exTy2 exVal2 = .ok [253, 7] := by decide
+example : (serializeC (liar false) exTy2 exVal2 [0, 0] 2) = .ok ([255, 0], 2) := by decide
+example : serializeC (liar true) exTy2 exVal2 [0, 0] 2 = .error .assert := by decide
+example : deserializeC (liar true) exTy2 [253, 7] 2 = .error .assert := by decide
+example : deserializeC (liar false) exTy2 [253, 7] 2 ≠ (deBytes exTy2 [253, 7]).mapError embedD := by decide
 
 end NunavutVerif.GenC
